@@ -151,6 +151,7 @@ package fosite
 //@ ghost ref_client  : map[string]string
 //@ ghost ref_acc     : map[string]string   // signature of the access token issued alongside
 //@ ghost ref_req     : map[string]Requester
+//@ ghost ref_ever    : map[string]bool     // signatures under which a refresh token has been stored at some time (history variable)
 //@ ghost stored      : map[V]bool          // request objects owned by the store
 //@ ghost shared      : map[V]bool          // objects a store handed out: another request running at the same time may hold them too
 //@ ghost faults      : int                 // number of storage calls that failed unexpectedly so far
@@ -170,6 +171,7 @@ package fosite
 //@ ghost snap_ref_active  : map[string]bool
 //@ ghost snap_dev_live    : map[string]bool
 //@ ghost dev_live   : map[string]bool     // device authorizations (see package rfc8628)
+//@ ghost dev_ever   : map[string]bool     // device-code signatures under which a device authorization has been stored at some time (history variable)
 
 //@ spec func codes_unchanged() bool = code_exists == old(code_exists) && code_active == old(code_active) && code_rid == old(code_rid) && code_client == old(code_client) && code_req == old(code_req)
 //@ spec func access_unchanged() bool = acc_exists == old(acc_exists) && acc_rid == old(acc_rid) && acc_client == old(acc_client) && acc_req == old(acc_req)
